@@ -155,6 +155,8 @@ func (h *Hub) RunOptionalStats(closed chan struct{}, withStats bool) {
 						close(subclient.Stopped)
 					}
 				}
+				// forget the stopped subclients, so that they are not stopped (closed) twice
+				h.SubClients = make(map[*hub.Client]map[*SubClient]bool)
 
 				h.Rules = make(map[string][]string)
 
@@ -167,6 +169,8 @@ func (h *Hub) RunOptionalStats(closed chan struct{}, withStats bool) {
 							h.Hub.Unregister <- subClient.Client
 							close(subClient.Stopped)
 						}
+						// forget the stopped subclients, so that they are not stopped (closed) twice
+						delete(h.SubClients, client)
 					}
 				}
 
